@@ -5,7 +5,7 @@
    MC_C05nat does the same for the scalar field (obj/NatMachine.tla over internal/bigmod: loaders, Add/Sub/Mul/Exp/Inverse, observers);
 3. the traces are replayed through elliptic.Curve, internal point type, ecdh and sm2 key constructors under every field-arithmetic tier."""
 import os
-from .. import core, cfgs
+from .. import core, cfgs, fel
 
 S = core.tla_set
 
@@ -70,6 +70,9 @@ def run(ctx):
         natc = dict(Seed=ctx.seed, Fams=q(["arith", "load"]), ModIdx=allm, BigFrom=18, NRnd=8, MaxOps=3, FullPairs="TRUE", LoadLens=S(range(0, 82)))
     jobs.append(dict(module="MC_C05nat", name="MC_C05nat", view="View", workers=4 if quick else 8, timeout=3000, heap="4g",
                      constants=dict(natc, OutFile=core.tla_str(natout)), invariants=("Reduced",), properties=("InverseSound", "StepLaws")))
+    # the limb-level field arithmetic underneath (assembly p256* primitives, fiat-crypto elements) on limb-structured residues
+    feljobs, felouts = fel.jobs(ctx, ["p256", "p256ord", "fiatp", "fiatn"])
+    jobs += feljobs
     jobs.append(dict(module="KAT_EC", name="KAT_EC", constants={}, init_next=("Init", "Next"), workers=1, timeout=600, heap="1g"))
     jobs += toys
     ctx.tlc_many(jobs, parallel=len(jobs))
@@ -84,6 +87,7 @@ def run(ctx):
     ctx.binding_guard(out, cfgs.K_EC[3])
     ctx.sample_traces(out)
 
+    fel.replay(ctx, felouts, cfgs.K_EC)
     ctx.replay_all(natout, cfgs.K_EC, per_trace_timeout=60)
     ctx.binding_guard(natout, cfgs.K_EC[3], field="a")
     ctx.sample_traces(natout)
@@ -115,6 +119,7 @@ def run(ctx):
     ]
     return ctx.finish(rule="one case per TLC transition of MC_C05: (family, point classes of the registers, sequence of operations with scalar class / byte length / mutation / form); "
                            "each replayed through elliptic.Curve, internal point type (3 aliasing patterns), ecdh and sm2 key constructors, in 4 backend configurations; "
+                           "plus one case per row of MC_Fel (field, primitive, left operand; all right operands of the column set) on the limb-level primitives; "
                            "plus one case per transition of MC_C05nat: (modulus, register classes, operation sequence) on internal/bigmod in the same configurations; "
                            "distinct = distinct such tuples; non-trivial = a point, scalar, residue or verdict was compared",
                       exhaustive=False)
